@@ -66,7 +66,16 @@ func (r requirement) edgesDepth(fn *ssa.Function, depth int) map[ir.Edge]bool {
 		if g == nil || g.Blocks == nil || !ir.InRepo(g) || g == fn {
 			return
 		}
+		// the helper's parameters stand for the arguments of this call
+		b := ir.Binding{}
+		for i, p := range g.Params {
+			if i < len(call.Call.Args) {
+				b[p] = call.Call.Args[i]
+			}
+		}
+		undo := ir.Bind(b)
 		ge := r.edgesDepth(g, depth+1)
+		undo()
 		if len(ge) == 0 {
 			return
 		}
@@ -172,6 +181,21 @@ func (h *H) mutationTargets(fn *ssa.Function, ctrl string, fields []string, call
 	return out
 }
 
+// bodyWithTargets: an entry point that only takes the lock and delegates to an extracted
+// body (`Lock(); r := x.fooNoMutex(req); Unlock(); return r`) is analysed in that body; the
+// lock it holds on entry is known from its callers.
+func bodyWithTargets(fn *ssa.Function, has func(*ssa.Function) bool) *ssa.Function {
+	if fn == nil || has(fn) {
+		return fn
+	}
+	for _, g := range helperFuncs(fn)[1:] {
+		if has(g) {
+			return g
+		}
+	}
+	return fn
+}
+
 func ruleR04a(h *H) {
 	const rule = "R04a"
 	h.Rule(rule, "K1+K2", "fence-guard table: per entry point, the listed term/status comparisons precede (on every path, under the controller lock) the listed mutations", 14)
@@ -184,6 +208,9 @@ func ruleR04a(h *H) {
 
 	// leader NewTerm
 	if fn := h.implMethod(rule, "server", "LeaderController", "NewTerm"); fn != nil {
+		fn = bodyWithTargets(fn, func(f *ssa.Function) bool {
+			return len(h.mutationTargets(f, L, []string{"term", "status"}, dbUpdateTerm)) > 0
+		})
 		checkGuards(h, rule, "leader NewTerm", fn,
 			h.mutationTargets(fn, L, []string{"term", "status"}, dbUpdateTerm),
 			[]requirement{
@@ -193,6 +220,9 @@ func ruleR04a(h *H) {
 	}
 	// leader BecomeLeader
 	if fn := h.implMethod(rule, "server", "LeaderController", "BecomeLeader"); fn != nil {
+		fn = bodyWithTargets(fn, func(f *ssa.Function) bool {
+			return len(h.mutationTargets(f, L, []string{"status", "quorumAckTracker"})) > 0
+		})
 		t := h.mutationTargets(fn, L, []string{"status", "quorumAckTracker", "followers", "replicationFactor", "leaderElectionHeadEntryId"})
 		checkGuards(h, rule, "leader BecomeLeader", fn, t, []requirement{
 			{"status == FENCED", []func(ir.Cmp) bool{h.statusIs(L, "ServingStatus_FENCED")}},
@@ -214,12 +244,18 @@ func ruleR04a(h *H) {
 	}
 	// follower NewTerm
 	if fn := h.implMethod(rule, "server", "FollowerController", "NewTerm"); fn != nil {
+		fn = bodyWithTargets(fn, func(f *ssa.Function) bool {
+			return len(h.mutationTargets(f, F, []string{"term", "status"}, dbUpdateTerm)) > 0
+		})
 		checkGuards(h, rule, "follower NewTerm", fn,
 			h.mutationTargets(fn, F, []string{"term", "status"}, dbUpdateTerm),
 			[]requirement{{"req.Term >= term", []func(ir.Cmp) bool{termCmp("NewTermRequest", F, token.GEQ, token.GTR)}}}, true)
 	}
 	// follower Truncate
 	if fn := h.implMethod(rule, "server", "FollowerController", "Truncate"); fn != nil {
+		fn = bodyWithTargets(fn, func(f *ssa.Function) bool {
+			return len(h.mutationTargets(f, F, []string{"status", "lastAppendedOffset"}, walTruncate)) > 0
+		})
 		checkGuards(h, rule, "follower Truncate", fn,
 			h.mutationTargets(fn, F, []string{"status", "lastAppendedOffset"}, walTruncate),
 			[]requirement{
